@@ -114,6 +114,86 @@ theorem multipleEdges_spec (v : V) (visited : Dict V Bool) (paths : List (List L
         · cases h1; exact ⟨vis, hvis⟩
         · exact r6 w nb' h1
 
+/-- the inner loop never raises when every end vertex of the listed walks has a `visited` entry -/
+theorem multipleEdges_ok (v : V) (visited : Dict V Bool) (paths : List (List L × V))
+    (hfun : ∀ w nb nb', (w, nb) ∈ paths → (w, nb') ∈ paths → nb = nb')
+    (hvis : ∀ w nb, (w, nb) ∈ paths → ∃ b, visited.get? nb = some b) :
+    ∀ (new : FSA V (List L)) (q : List V), new.WF → v ∈ new.out.keys →
+      (∀ w nb b, (w, nb) ∈ paths → new.step v w = some b → b = nb) →
+      ∃ r, multipleEdges v visited paths (new, q) = .ok r := by
+  induction paths with
+  | nil => intro new q _ _ _; exact ⟨(new, q), rfl⟩
+  | cons p rest ih =>
+    obtain ⟨word, nb⟩ := p
+    intro new q hw hv hnc
+    have hw1 := wf_addVertices hw [nb]
+    have ha1 := abs_addVertices hw [nb]
+    have hok : SetFSA.EdgesLOK true (new.addVertices [nb]).abs
+        ([(v, nb, word)].map fun e => (e.1, e.2.1, [e.2.2])) := by
+      refine ⟨⟨?_, by simp, trivial⟩, trivial⟩
+      intro b hb
+      rw [ha1] at hb
+      exact hnc word nb b (by simp) hb
+    obtain ⟨new1, e1, w1, st1, a1⟩ := addEdges_spec hw1 true [(v, nb, word)] hok
+    obtain ⟨vis, hvisnb⟩ := hvis word nb (by simp)
+    have hstep1 : ∀ a w b, new1.step a w = some b ↔ new.step a w = some b ∨ (a = v ∧ w = word ∧ b = nb) := by
+      intro a w b
+      have : new1.abs.edges a w b ↔ ((new.abs.addVertices [nb]).addEdges [(v, nb, word)]).edges a w b := by
+        rw [a1, ha1]
+      exact this
+    have hkeysv : v ∈ new1.out.keys := by
+      have : new1.abs.verts v ↔ ((new.abs.addVertices [nb]).addEdges [(v, nb, word)]).verts v := by
+        rw [a1, ha1]
+      exact this.2 (Or.inl (Or.inl hv))
+    have hfun' : ∀ w nb nb', (w, nb) ∈ rest → (w, nb') ∈ rest → nb = nb' :=
+      fun w a b h1 h2 => hfun w a b (by simp [h1]) (by simp [h2])
+    have hnc' : ∀ w nb' b, (w, nb') ∈ rest → new1.step v w = some b → b = nb' := by
+      intro w nb' b hm hb
+      rcases (hstep1 v w b).1 hb with h1 | ⟨-, rfl, rfl⟩
+      · exact hnc w nb' b (by simp [hm]) h1
+      · exact hfun w b nb' (by simp) (by simp [hm])
+    obtain ⟨r, hr⟩ := ih hfun' (fun w a h => hvis w a (by simp [h])) new1
+      (if vis = true then q else q ++ [nb]) w1 hkeysv hnc'
+    exact ⟨r, by simp only [multipleEdges, e1, Dict.get, hvisnb, bind, Except.bind]; exact hr⟩
+
+/-- the queue after the inner loop: at most one new entry per listed walk, each of them the
+unvisited end of a listed walk -/
+theorem multipleEdges_queue (v : V) (visited : Dict V Bool) (paths : List (List L × V)) :
+    ∀ (new : FSA V (List L)) (q : List V) (new' : FSA V (List L)) (q' : List V),
+      multipleEdges v visited paths (new, q) = .ok (new', q') →
+      ∃ app, q' = q ++ app ∧ app.length ≤ paths.length ∧
+        ∀ x ∈ app, visited.get? x = some false ∧ ∃ w, (w, x) ∈ paths := by
+  induction paths with
+  | nil =>
+    intro new q new' q' h
+    simp only [multipleEdges, Except.ok.injEq, Prod.mk.injEq] at h
+    exact ⟨[], by simp [h.2], by simp, by simp⟩
+  | cons p rest ih =>
+    obtain ⟨word, nb⟩ := p
+    intro new q new' q' h
+    simp only [multipleEdges, Dict.get, bind, Except.bind] at h
+    cases e1 : (new.addVertices [nb]).addEdges [(v, nb, word)] with
+    | error e => simp [e1] at h
+    | ok new1 =>
+      cases hvis : visited.get? nb with
+      | none => simp [e1, hvis] at h
+      | some vis =>
+        simp only [e1, hvis] at h
+        obtain ⟨app, h1, h2, h3⟩ := ih _ _ _ _ h
+        cases vis
+        · simp only [Bool.false_eq_true, if_false] at h1
+          refine ⟨nb :: app, by simp [h1], by simp; omega, ?_⟩
+          intro x hx
+          rcases List.mem_cons.1 hx with rfl | hx
+          · exact ⟨hvis, word, by simp⟩
+          · obtain ⟨a1, w, a2⟩ := h3 x hx
+            exact ⟨a1, w, by simp [a2]⟩
+        · simp only [if_true] at h1
+          refine ⟨app, h1, by simp; omega, ?_⟩
+          intro x hx
+          obtain ⟨a1, w, a2⟩ := h3 x hx
+          exact ⟨a1, w, by simp [a2]⟩
+
 /-- invariant of the queue loop of `automaton_multiple` -/
 structure MultInv (s : FSA V L) (k : Nat) (new : FSA V (List L)) (visited : Dict V Bool) (queue : List V) :
     Prop where
@@ -127,6 +207,104 @@ structure MultInv (s : FSA V L) (k : Nat) (new : FSA V (List L)) (visited : Dict
       new.step v w = some nb ∧ (visited.get? nb = some true ∨ nb ∈ queue)
   init : ∀ v ∈ s.starts, visited.get? v = some true ∨ v ∈ queue
   pending : ∀ v, v ∈ new.out.keys → visited.get? v = some true ∨ v ∈ queue
+
+/-- one iteration of the queue loop keeps the invariant (given that its two computations succeed) -/
+theorem mult_step {s : FSA V L} (hs : s.RowsNodup) (k : Nat)
+    (new : FSA V (List L)) (visited : Dict V Bool) (v : V) (q : List V)
+    (inv : MultInv s k new visited (v :: q)) {paths : List (List L × V)} {new2 : FSA V (List L)} {q2 : List V}
+    (hp : s.enumFixed v k = .ok paths)
+    (hme : multipleEdges v (Dict.set visited v true) paths (new.addVertices [v], q) = .ok (new2, q2)) :
+    MultInv s k new2 (Dict.set visited v true) q2 := by
+  have hpaths := fun w nb => FSA.mem_enumFixed hs hp w nb
+  have hw1 := wf_addVertices inv.wf [v]
+  have ha1 := abs_addVertices inv.wf [v]
+  have hstep1 : ∀ a w b, (new.addVertices [v]).step a w = some b ↔ new.step a w = some b := by
+    intro a w b
+    have : (new.addVertices [v]).abs.edges a w b ↔ (new.abs.addVertices [v]).edges a w b := by rw [ha1]
+    exact this
+  have hkeys1 : ∀ a, a ∈ (new.addVertices [v]).out.keys ↔ a ∈ new.out.keys ∨ a = v := by
+    intro a; rw [mem_keys_addVertices]; simp
+  have hfun : ∀ w nb nb', (w, nb) ∈ paths → (w, nb') ∈ paths → nb = nb' := by
+    intro w a b h1 h2
+    have e1 := ((hpaths w a).1 h1).2
+    have e2 := ((hpaths w b).1 h2).2
+    rw [e1] at e2; exact Option.some.inj e2
+  have hnc : ∀ w nb b, (w, nb) ∈ paths → (new.addVertices [v]).step v w = some b → b = nb := by
+    intro w nb b hm hb
+    have e1 := ((hpaths w nb).1 hm).2
+    have e2 := (inv.sound v w b ((hstep1 v w b).1 hb)).2
+    rw [e1] at e2; exact (Option.some.inj e2).symm
+  obtain ⟨r1, r2, r3, r4, r5, r6⟩ := multipleEdges_spec v (Dict.set visited v true) paths hfun
+    (new.addVertices [v]) q new2 q2 hw1 ((hkeys1 v).2 (Or.inr rfl)) hnc hme
+  have hvreach : KReach s k v := inv.qreach v (by simp)
+  have hvis1 : ∀ x, visited.get? x = some true → (Dict.set visited v true).get? x = some true := by
+    intro x hx; rw [get?_set]; split <;> simp_all
+  refine ⟨r1, by rw [r2, starts_addVertices, inv.starts], ?_, ?_, ?_, ?_, ?_, ?_⟩
+  · intro a w b hab
+    rcases (r3 a w b).1 hab with h1 | ⟨rfl, h1⟩
+    · exact inv.sound a w b ((hstep1 a w b).1 h1)
+    · exact (hpaths w b).1 h1
+  · intro a ha
+    rcases (r4 a).1 ha with h1 | ⟨w, h1⟩
+    · rcases (hkeys1 a).1 h1 with h2 | rfl
+      · exact inv.reach a h2
+      · exact hvreach
+    · obtain ⟨e1, e2⟩ := (hpaths w a).1 h1
+      exact KReach.step hvreach e1 e2
+  · intro x hx
+    rcases (r5 x).1 hx with h1 | ⟨w, h1, -⟩
+    · exact inv.qreach x (by simp [h1])
+    · obtain ⟨e1, e2⟩ := (hpaths w x).1 h1
+      exact KReach.step hvreach e1 e2
+  · intro x hx
+    rw [get?_set] at hx
+    by_cases hxv : x = v
+    · subst hxv
+      refine ⟨(r4 x).2 (Or.inl ((hkeys1 x).2 (Or.inr rfl))), ?_⟩
+      intro w nb hw hf
+      have hm : (w, nb) ∈ paths := (hpaths w nb).2 ⟨hw, hf⟩
+      refine ⟨(r3 x w nb).2 (Or.inr ⟨rfl, hm⟩), ?_⟩
+      obtain ⟨b, hb⟩ := r6 w nb hm
+      cases b
+      · exact Or.inr ((r5 nb).2 (Or.inr ⟨w, hm, hb⟩))
+      · exact Or.inl hb
+    · simp only [hxv, if_false] at hx
+      obtain ⟨d1, d2⟩ := inv.done x hx
+      refine ⟨(r4 x).2 (Or.inl ((hkeys1 x).2 (Or.inl d1))), ?_⟩
+      intro w nb hw hf
+      obtain ⟨e1, e2⟩ := d2 w nb hw hf
+      refine ⟨(r3 x w nb).2 (Or.inl ((hstep1 x w nb).2 e1)), ?_⟩
+      rcases e2 with e2 | e2
+      · exact Or.inl (hvis1 nb e2)
+      · rcases List.mem_cons.1 e2 with rfl | e2
+        · exact Or.inl (by simp [get?_set])
+        · exact Or.inr ((r5 nb).2 (Or.inl e2))
+  · intro x hx
+    rcases inv.init x hx with h1 | h1
+    · exact Or.inl (hvis1 x h1)
+    · rcases List.mem_cons.1 h1 with rfl | h1
+      · exact Or.inl (by simp [get?_set])
+      · exact Or.inr ((r5 x).2 (Or.inl h1))
+  · intro a ha
+    rcases (r4 a).1 ha with h1 | ⟨w, h1⟩
+    · rcases (hkeys1 a).1 h1 with h2 | rfl
+      · rcases inv.pending a h2 with h3 | h3
+        · exact Or.inl (hvis1 a h3)
+        · rcases List.mem_cons.1 h3 with rfl | h3
+          · exact Or.inl (by simp [get?_set])
+          · exact Or.inr ((r5 a).2 (Or.inl h3))
+      · exact Or.inl (by simp [get?_set])
+    · obtain ⟨b, hb⟩ := r6 w a h1
+      cases b
+      · exact Or.inr ((r5 a).2 (Or.inr ⟨w, h1, hb⟩))
+      · exact Or.inl hb
+
+theorem multipleLoop_succ_eq {s : FSA V L} (k fuel : Nat) (new : FSA V (List L)) (visited : Dict V Bool)
+    (v : V) (q : List V) {paths : List (List L × V)} {new2 : FSA V (List L)} {q2 : List V}
+    (hp : s.enumFixed v k = .ok paths)
+    (hme : multipleEdges v (Dict.set visited v true) paths (new.addVertices [v], q) = .ok (new2, q2)) :
+    multipleLoop s k (fuel + 1) new visited (v :: q) = multipleLoop s k fuel new2 (Dict.set visited v true) q2 := by
+  simp only [multipleLoop, hp, hme, bind, Except.bind]
 
 theorem multipleLoop_spec {s : FSA V L} (hs : s.RowsNodup) (k : Nat) (fuel : Nat) :
     ∀ (new : FSA V (List L)) (visited : Dict V Bool) (queue : List V) (new' : FSA V (List L)),
@@ -143,6 +321,7 @@ theorem multipleLoop_spec {s : FSA V L} (hs : s.RowsNodup) (k : Nat) (fuel : Nat
     cases queue with
     | nil => simp only [multipleLoop, Except.ok.injEq] at h; subst h; exact ⟨visited, inv⟩
     | cons v q =>
+      have h0 := h
       simp only [multipleLoop] at h
       cases hp : s.enumFixed v k with
       | error e => simp [hp, bind, Except.bind] at h
@@ -152,91 +331,29 @@ theorem multipleLoop_spec {s : FSA V L} (hs : s.RowsNodup) (k : Nat) (fuel : Nat
       | error e => simp [hme] at h
       | ok nq =>
       obtain ⟨new2, q2⟩ := nq
-      simp only [hme] at h
-      have hpaths := fun w nb => FSA.mem_enumFixed hs hp w nb
-      have hw1 := wf_addVertices inv.wf [v]
-      have ha1 := abs_addVertices inv.wf [v]
-      have hstep1 : ∀ a w b, (new.addVertices [v]).step a w = some b ↔ new.step a w = some b := by
-        intro a w b
-        have : (new.addVertices [v]).abs.edges a w b ↔ (new.abs.addVertices [v]).edges a w b := by rw [ha1]
-        exact this
-      have hkeys1 : ∀ a, a ∈ (new.addVertices [v]).out.keys ↔ a ∈ new.out.keys ∨ a = v := by
-        intro a; rw [mem_keys_addVertices]; simp
-      have hfun : ∀ w nb nb', (w, nb) ∈ paths → (w, nb') ∈ paths → nb = nb' := by
-        intro w a b h1 h2
-        have e1 := ((hpaths w a).1 h1).2
-        have e2 := ((hpaths w b).1 h2).2
-        rw [e1] at e2; exact Option.some.inj e2
-      have hnc : ∀ w nb b, (w, nb) ∈ paths → (new.addVertices [v]).step v w = some b → b = nb := by
-        intro w nb b hm hb
-        have e1 := ((hpaths w nb).1 hm).2
-        have e2 := (inv.sound v w b ((hstep1 v w b).1 hb)).2
-        rw [e1] at e2; exact (Option.some.inj e2).symm
-      obtain ⟨r1, r2, r3, r4, r5, r6⟩ := multipleEdges_spec v (Dict.set visited v true) paths hfun
-        (new.addVertices [v]) q new2 q2 hw1 ((hkeys1 v).2 (Or.inr rfl)) hnc hme
-      have hvreach : KReach s k v := inv.qreach v (by simp)
-      have hvis1 : ∀ x, visited.get? x = some true → (Dict.set visited v true).get? x = some true := by
-        intro x hx; rw [get?_set]; split <;> simp_all
-      apply ih new2 (Dict.set visited v true) q2 new' _ h
-      refine ⟨r1, by rw [r2, starts_addVertices, inv.starts], ?_, ?_, ?_, ?_, ?_, ?_⟩
-      · intro a w b hab
-        rcases (r3 a w b).1 hab with h1 | ⟨rfl, h1⟩
-        · exact inv.sound a w b ((hstep1 a w b).1 h1)
-        · exact (hpaths w b).1 h1
-      · intro a ha
-        rcases (r4 a).1 ha with h1 | ⟨w, h1⟩
-        · rcases (hkeys1 a).1 h1 with h2 | rfl
-          · exact inv.reach a h2
-          · exact hvreach
-        · obtain ⟨e1, e2⟩ := (hpaths w a).1 h1
-          exact KReach.step hvreach e1 e2
-      · intro x hx
-        rcases (r5 x).1 hx with h1 | ⟨w, h1, -⟩
-        · exact inv.qreach x (by simp [h1])
-        · obtain ⟨e1, e2⟩ := (hpaths w x).1 h1
-          exact KReach.step hvreach e1 e2
-      · intro x hx
-        rw [get?_set] at hx
-        by_cases hxv : x = v
-        · subst hxv
-          refine ⟨(r4 x).2 (Or.inl ((hkeys1 x).2 (Or.inr rfl))), ?_⟩
-          intro w nb hw hf
-          have hm : (w, nb) ∈ paths := (hpaths w nb).2 ⟨hw, hf⟩
-          refine ⟨(r3 x w nb).2 (Or.inr ⟨rfl, hm⟩), ?_⟩
-          obtain ⟨b, hb⟩ := r6 w nb hm
-          cases b
-          · exact Or.inr ((r5 nb).2 (Or.inr ⟨w, hm, hb⟩))
-          · exact Or.inl hb
-        · simp only [hxv, if_false] at hx
-          obtain ⟨d1, d2⟩ := inv.done x hx
-          refine ⟨(r4 x).2 (Or.inl ((hkeys1 x).2 (Or.inl d1))), ?_⟩
-          intro w nb hw hf
-          obtain ⟨e1, e2⟩ := d2 w nb hw hf
-          refine ⟨(r3 x w nb).2 (Or.inl ((hstep1 x w nb).2 e1)), ?_⟩
-          rcases e2 with e2 | e2
-          · exact Or.inl (hvis1 nb e2)
-          · rcases List.mem_cons.1 e2 with rfl | e2
-            · exact Or.inl (by simp [get?_set])
-            · exact Or.inr ((r5 nb).2 (Or.inl e2))
-      · intro x hx
-        rcases inv.init x hx with h1 | h1
-        · exact Or.inl (hvis1 x h1)
-        · rcases List.mem_cons.1 h1 with rfl | h1
-          · exact Or.inl (by simp [get?_set])
-          · exact Or.inr ((r5 x).2 (Or.inl h1))
-      · intro a ha
-        rcases (r4 a).1 ha with h1 | ⟨w, h1⟩
-        · rcases (hkeys1 a).1 h1 with h2 | rfl
-          · rcases inv.pending a h2 with h3 | h3
-            · exact Or.inl (hvis1 a h3)
-            · rcases List.mem_cons.1 h3 with rfl | h3
-              · exact Or.inl (by simp [get?_set])
-              · exact Or.inr ((r5 a).2 (Or.inl h3))
-          · exact Or.inl (by simp [get?_set])
-        · obtain ⟨b, hb⟩ := r6 w a h1
-          cases b
-          · exact Or.inr ((r5 a).2 (Or.inr ⟨w, h1, hb⟩))
-          · exact Or.inl hb
+      rw [multipleLoop_succ_eq k fuel new visited v q hp hme] at h0
+      exact ih new2 _ q2 new' (mult_step hs k new visited v q inv hp hme) h0
+
+theorem wf_emptyFSA' {V L : Type} [DecidableEq V] [DecidableEq L] (st : List V) : (FSA.empty st : FSA V L).WF := by
+  have : (FSA.empty st : FSA V L) = { graph := [], out := [], inn := [], starts := st } := rfl
+  rw [this]
+  refine ⟨⟨⟨by simp, by simp, by simp, by simp, by simp, by simp⟩, by simp, by simp, ?_, ?_, ?_, ?_⟩, ?_⟩
+  · intro v w; rfl
+  · intro v l w; simp [step_def, og_def]
+  · intro v w ls h; simp [og_def] at h
+  · intro v w ls h; simp [og_def] at h
+  · intro v w ls h; simp [og_def] at h
+
+theorem multInv_init (s : FSA V L) (k : Nat) :
+    MultInv s k (FSA.empty s.starts) (s.vertices.map fun v => (v, false)) s.starts := by
+  have hw := wf_emptyFSA' (V := V) (L := List L) s.starts
+  refine ⟨hw, rfl, ?_, ?_, fun v hv => KReach.start hv, ?_, fun v hv => Or.inr hv, ?_⟩
+  · intro v w nb hst; simp [step_def, FSA.empty, fromGraphDict, hiddenVertices] at hst
+  · intro v hv; cases hv
+  · intro v hv
+    have := mem_of_get? hv
+    simp at this
+  · intro v hv; cases hv
 
 /-- **Partial correctness of `automaton_multiple(k)`.**  Whenever the queue loop returns, the
 result is a well-formed automaton with the same start list whose vertices are exactly the vertices
@@ -246,15 +363,7 @@ theorem multiple_spec {s : FSA V L} (hs : s.RowsNodup) (k fuel : Nat) {new' : FS
     (h : s.multiple k fuel = .ok new') :
     new'.WF ∧ new'.starts = s.starts ∧ (∀ v, v ∈ new'.out.keys ↔ KReach s k v) ∧
     ∀ v w nb, new'.step v w = some nb ↔ KReach s k v ∧ w.length = k ∧ s.follow v w = some nb := by
-  have inv0 : MultInv s k (FSA.empty s.starts) (s.vertices.map fun v => (v, false)) s.starts := by
-    have hw := wf_emptyFSA' (V := V) (L := List L) s.starts
-    refine ⟨hw, rfl, ?_, ?_, fun v hv => KReach.start hv, ?_, fun v hv => Or.inr hv, ?_⟩
-    · intro v w nb hst; simp [step_def, FSA.empty, fromGraphDict, hiddenVertices] at hst
-    · intro v hv; cases hv
-    · intro v hv
-      have := mem_of_get? hv
-      simp at this
-    · intro v hv; cases hv
+  have inv0 := multInv_init s k
   obtain ⟨visited', inv⟩ := multipleLoop_spec hs k fuel _ _ _ new' inv0 h
   have hclosed : ∀ v, KReach s k v → visited'.get? v = some true := by
     intro v hv
@@ -278,16 +387,6 @@ theorem multiple_spec {s : FSA V L} (hs : s.RowsNodup) (k fuel : Nat) {new' : FS
     exact (mem_keys_iff _ _).2 ⟨row, hr⟩
   · rintro ⟨h1, h2, h3⟩
     exact ((inv.done v (hclosed v h1)).2 w nb h2 h3).1
-where
-  wf_emptyFSA' {V L : Type} [DecidableEq V] [DecidableEq L] (st : List V) : (FSA.empty st : FSA V L).WF := by
-    have : (FSA.empty st : FSA V L) = { graph := [], out := [], inn := [], starts := st } := rfl
-    rw [this]
-    refine ⟨⟨⟨by simp, by simp, by simp, by simp, by simp, by simp⟩, by simp, by simp, ?_, ?_, ?_, ?_⟩, ?_⟩
-    · intro v w; rfl
-    · intro v l w; simp [step_def, og_def]
-    · intro v w ls h; simp [og_def] at h
-    · intro v w ls h; simp [og_def] at h
-    · intro v w ls h; simp [og_def] at h
 
 /-- a word whose length is a multiple of `k ≥ 1` splits into blocks of length `k` -/
 theorem exists_blocks (k : Nat) (n : Nat) (w : List L) (hw : w.length = n * k) :
